@@ -14,8 +14,8 @@ CHECK = dict(
          "Subjecter and SetOrig with arguments derived from the current value (one-field differences, equal, reordered, empty, fresh). "
          "Non-trivial = program length >= 2; distinct by the whole case.",
     jobs=[REPLAY,
-          rapid("parta", "TestVerifPropA", 24_000, 480_000, sq=8, st=16),
-          rapid("partb", "TestVerifPropB", 16_000, 480_000, sq=8, st=16),
+          rapid("parta", "TestVerifPropA", 160_000, 8_000_000, sq=8, st=16),
+          rapid("partb", "TestVerifPropB", 120_000, 6_000_000, sq=8, st=16),
           fuzz("fuzz", "FuzzVerifManifestNew", 120)],
     technique="property-based testing (rapid): generated manifest bodies and expected-digest source combinations fetched through the real client "
               "(direct constructor, in-process hostile registry model, raw OCI layout, inline descriptor data) judged by independent hashing "
